@@ -71,6 +71,9 @@ class Ctx:
                 self.disagreements.append({"stream": stream, "cfg": cfg, "request": req, "impl": a[:2000], "model": b[:2000]})
             self.note_broken("correspondence", stream or "stream",
                              "%d disagreement(s); first: request=%s impl=%s model=%s" % (len(bad), req[:200], a[:200], b[:200]))
+        if cfg is None:
+            import hazards
+            hazards.remember(self, stream, res)
         return res, bad
 
     # -- results -----------------------------------------------------------------------------------------
@@ -209,6 +212,9 @@ def main(argv):
                 still += not same
                 print("correspondence %s: request %s… → implementation %s | model %s → %s" % (dd.get("stream"), dd["request"][:80], r[1][:120], r[2][:120], "agree now" if same else "STILL DISAGREE"))
             return 1 if (now or still) else 0
+        if payload.get("kind") == "history-hazard":
+            import hazards
+            return hazards.replay(payload)
         mod = importlib.import_module("props." + prop.lower())
         return mod.replay(payload)
     prop = a.prop
@@ -218,6 +224,9 @@ def main(argv):
         mod = importlib.import_module("props." + prop.lower())
         prepare(ctx, spec)
         mod.run(ctx)
+        if not getattr(ctx, "hazards_done", False) and getattr(ctx, "hazard_pool", None):
+            import hazards
+            hazards.check(ctx)          # modules that do not end in pfam.conclude
     except E.Infra as e:
         print("INFRASTRUCTURE FAILURE: %s" % e)
         return 2
